@@ -132,7 +132,16 @@ structure Cfg where
   /-- `parseListEntries` / `parseObjectEntries` leave their loop when the parser is in error state -/
   listBreaks : Bool
   objBreaks : Bool
+  /-- `maxNestingDepth`: `parseValue` refuses to open a list or object when this
+      many are already open (`none`: no limit) -/
+  depthLimit : Option Nat := none
   deriving Repr
+
+/-- `p.depth >= maxNestingDepth` -/
+def Cfg.tooDeep (c : Cfg) (d : Nat) : Bool :=
+  match c.depthLimit with
+  | some l => l ≤ d
+  | none => false
 
 /-- the condition after the repair: `!p.See(sep) && !p.See(EOF)` -/
 def BExp.fixed : BExp := .and (.not .seeSep) (.not .seeEof)
@@ -155,6 +164,10 @@ structure PS where
   le : ErrList := {}
   /-- the parser's error list -/
   pe : ErrList := {}
+  /-- ghost: the largest number of lists/objects that were open at the same
+      time (= frames of `parseListEntries`/`parseObjectEntries` on the Go stack;
+      `parseValue` frames are at most one more) -/
+  maxDepth : Nat := 0
   deriving Repr
 
 def PS.eofTok (s : PS) : Tok := { kind := .eof, line := s.eofLine, col := s.eofCol }
@@ -183,6 +196,8 @@ def PS.errAt (c : Cfg) (s : PS) (code : String) (t : Tok) : PS :=
   { s with pe := s.pe.add c.errMax ⟨code, t.line, t.col⟩ }
 def PS.errHere (c : Cfg) (s : PS) (code : String) : PS := s.errAt c code s.cur
 def PS.bailOut (s : PS) : PS := { s with pe := s.pe.bailOut }
+/-- `p.depth++` to `d`: record the nesting reached -/
+def PS.enter (s : PS) (d : Nat) : PS := { s with maxDepth := max s.maxDepth d }
 
 /-- `Parser.Expect(t)` -/
 def PS.expect (c : Cfg) (s : PS) (k : Kind) : PS :=
@@ -247,10 +262,11 @@ def identBody (c : Cfg) (s : PS) : Res (Bool × PS) :=
     if !s.seeOp '.' then .ok (false, s) else .ok (true, s.next c)
 
 /-- `parseValue`.  The fuel bounds the nesting depth and, one level down, the
-    iterations of each entry loop. -/
-def parseValue (c : Cfg) : Nat → PS → Res PS
-  | 0, _ => .outOfFuel
-  | n + 1, s =>
+    iterations of each entry loop.  `d` is `p.depth`, the number of lists and
+    objects currently open. -/
+def parseValue (c : Cfg) : Nat → Nat → PS → Res PS
+  | 0, _, _ => .outOfFuel
+  | n + 1, d, s =>
     if s.see .keyword then
       let t := s.cur
       .ok ((s.next c).leaf c "jsonx.unexpectedKeyword" t)
@@ -270,13 +286,17 @@ def parseValue (c : Cfg) : Nat → PS → Res PS
         .ok (if c.signedFloatParsed then s.leaf c "jsonx.floatLit" t else s)
       else .ok (s.errHere c "jsonx.expectNumber")
     else if s.seeOp '{' then
-      let s := s.next c
-      (loopB (fun s => !s.seeOp '}') (objBody c (parseValue c n)) n s).bind fun s =>
-      .ok (s.expectOp c '}')
+      if c.tooDeep d then .ok (s.errHere c "jsonx.tooDeep")
+      else
+        let s := (s.next c).enter (d + 1)
+        (loopB (fun s => !s.seeOp '}') (objBody c (parseValue c n (d + 1))) n s).bind fun s =>
+        .ok (s.expectOp c '}')
     else if s.seeOp '[' then
-      let s := s.next c
-      (loopB (fun s => !s.seeOp ']') (listBody c (parseValue c n)) n s).bind fun s =>
-      .ok (s.expectOp c ']')
+      if c.tooDeep d then .ok (s.errHere c "jsonx.tooDeep")
+      else
+        let s := (s.next c).enter (d + 1)
+        (loopB (fun s => !s.seeOp ']') (listBody c (parseValue c n (d + 1))) n s).bind fun s =>
+        .ok (s.expectOp c ']')
     else if s.see .ident then
       loopB (fun _ => true) (identBody c) n s
     else .ok (s.errHere c "jsonx.expectOperand")
@@ -302,7 +322,7 @@ def seriesBody (c : Cfg) (fuel : Nat) (s : SS) : Res (Bool × SS) :=
   if !named then
     (skipErrStmt c fuel p).bind fun r => .ok (true, { s with p := r.2 })
   else
-    (parseValue c fuel p).bind fun p =>
+    (parseValue c fuel 0 p).bind fun p =>
     (skipErrStmt c fuel p).bind fun r =>
     if r.1 then .ok (true, { s with p := r.2 })
     else
@@ -338,11 +358,11 @@ def outcomeOf (s : PS) (entries : Nat) (more : Bool) : Outcome :=
 
 /-- the parse phase of `ToJSON` (encoding the value is a leaf, see `toJSON`) -/
 def toJSONToks (c : Cfg) (fuel : Nat) (s : PS) : Res Outcome :=
-  (parseValue c fuel s).bind fun s => .ok (outcomeOf s 0 false)
+  (parseValue c fuel 0 s).bind fun s => .ok (outcomeOf s 0 false)
 
 /-- `Decoder.Decode` + `More()` as used by `Unmarshal` -/
 def decodeToks (c : Cfg) (fuel : Nat) (s : PS) : Res Outcome :=
-  (parseValue c fuel s).bind fun s =>
+  (parseValue c fuel 0 s).bind fun s =>
   match s.errs with
   | [] =>
     let s := if s.see .semi then s.next c else s
